@@ -546,3 +546,176 @@ Definition norm_variant (t : variant_table) : variant_table :=
   map (fun e => (fst e, map (fun pa => (fst pa, norm_xaction (snd pa))) (snd e))) t.
 Definition norm_access_class (c : access_class) : access_class := match c with NextKeyFromIter _ => NextKeyFromIter CowOwned | c => c end.
 Definition norm_access_table (t : access_table) : access_table := map (fun e => (fst e, norm_access_class (snd e))) t.
+
+(* ---- (3) meaning: SeqAccess / MapAccess as step functions of the access state ------------------------------------------------------------ *)
+Definition amethod_eqb (a b : amethod) : bool :=
+  match a, b with
+  | a_next_element_seed, a_next_element_seed | a_next_key_seed, a_next_key_seed | a_next_value_seed, a_next_value_seed
+  | a_size_hint, a_size_hint => true
+  | _, _ => false
+  end.
+Fixpoint lookup_access (t : access_table) (m : amethod) : option access_class :=
+  match t with
+  | [] => None
+  | (m', c) :: r => if amethod_eqb m' m then Some c else lookup_access r m
+  end.
+
+(* Seq[Ref]Deserializer { iter }: the state is what the iterator still holds *)
+Definition seq_next {A} (T : access_table) (seed : value -> vres A) (it : list value) : vres (option A * list value) :=
+  match lookup_access T a_next_element_seed with
+  | Some NextElementFromIter =>
+    match it with
+    | [] => VOk (None, [])
+    | x :: r => let& a := seed x in VOk (Some a, r)
+    end
+  | _ => VPanic
+  end.
+Definition access_size_hint {X} (T : access_table) (it : list X) : option (option nat) :=
+  match lookup_access T a_size_hint with
+  | Some SizeHintExact => Some (Some (length it))          (* vec::IntoIter / slice::Iter / the map iterators are exact-size *)
+  | _ => None
+  end.
+
+(* Map[Ref]Deserializer { iter, value } *)
+Definition map_state : Type := (list (bytes * value) * option value)%type.
+Definition map_next_key {K} (T : access_table) (keyseed : cow -> bytes -> vres K) (st : map_state) : vres (option K * map_state) :=
+  match lookup_access T a_next_key_seed with
+  | Some (NextKeyFromIter c) =>
+    match fst st with
+    | [] => VOk (None, ([], snd st))
+    | (k, x) :: r => let& kd := keyseed c k in VOk (Some kd, (r, Some x))       (* self.value = Some(value) comes first; an error ends the run *)
+    end
+  | _ => VPanic
+  end.
+Definition map_next_value {A} (T : access_table) (seed : value -> vres A) (st : map_state) : vres (A * map_state) :=
+  match lookup_access T a_next_value_seed with
+  | Some NextValueTake =>
+    match snd st with
+    | Some x => let& a := seed x in VOk (a, (fst st, None))
+    | None => verr MCustom                                   (* "value is missing" *)
+    end
+  | _ => VPanic
+  end.
+
+(* the visitors' loops of the universal seed (harness/src/bin/sjh_fv.rs), over such an access; [fuel] bounds the number of iterations *)
+(* SeqV / ByteBuf: next_element_seed until None *)
+Fixpoint seqv_loop {A} (fuel : nat) (next : list value -> vres (option A * list value)) (it : list value) : vres (list A * list value) :=
+  match fuel with
+  | O => VFuel
+  | Datatypes.S f =>
+    let& (o, it1) := next it in
+    match o with
+    | None => VOk ([], it1)
+    | Some d => let& (ds, it2) := seqv_loop f next it1 in VOk (d :: ds, it2)
+    end
+  end.
+(* TupV: one next_element_seed per component, None => invalid_length *)
+Fixpoint tupv_loop (next : ty -> list value -> vres (option dval * list value)) (ts : list ty) (it : list value) : vres (list dval * list value) :=
+  match ts with
+  | [] => VOk ([], it)
+  | t :: ts' =>
+    let& (o, it1) := next t it in
+    match o with
+    | None => verr MInvalidLength
+    | Some d => let& (ds, it2) := tupv_loop next ts' it1 in VOk (d :: ds, it2)
+    end
+  end.
+(* MapV: next_key_seed, then next_value_seed, until None *)
+Fixpoint mapv_loop (fuel : nat) (next_key : map_state -> vres (option dval * map_state)) (next_value : map_state -> vres (dval * map_state))
+    (st : map_state) : vres (list (dval * dval) * map_state) :=
+  match fuel with
+  | O => VFuel
+  | Datatypes.S f =>
+    let& (o, st1) := next_key st in
+    match o with
+    | None => VOk ([], st1)
+    | Some kd =>
+      let& (vd, st2) := next_value st1 in
+      let& (es, st3) := mapv_loop f next_key next_value st2 in
+      VOk ((kd, vd) :: es, st3)
+    end
+  end.
+(* StructV: next_key_seed(FieldSeed) -> Some(index) / None (unknown field); duplicate check; next_value_seed / next_value::<IgnoredAny>() *)
+Fixpoint structv_loop (fuel : nat) (fields : list (bytes * ty))
+    (next_field : map_state -> vres (option (option (nat * ty)) * map_state))
+    (next_value : ty -> map_state -> vres (dval * map_state)) (next_ignored : map_state -> vres (dval * map_state))
+    (slots : list (option dval)) (st : map_state) : vres (list dval * map_state) :=
+  match fuel with
+  | O => VFuel
+  | Datatypes.S f =>
+    let& (o, st1) := next_field st in
+    match o with
+    | None => let& ds := of_visit1 (finish_struct fields slots st0) in VOk (ds, st1)
+    | Some (Some (i, t)) =>
+      if slot_filled i slots then verr MDuplicateField
+      else let& (d, st2) := next_value t st1 in structv_loop f fields next_field next_value next_ignored (set_slot i d slots) st2
+    | Some None => let& (_, st2) := next_ignored st1 in structv_loop f fields next_field next_value next_ignored slots st2
+    end
+  end.
+
+(* ---- (4) meaning: MapKeyDeserializer ------------------------------------------------------------------------------------------------------ *)
+Definition kseed_method (k : kty) : vmethod :=
+  match k with
+  | KStr => d_string | KInt it => int_vmethod it | KBool => d_bool | KChar => d_char | KF32 => d_f32 | KF64 => d_f64
+  | KOption _ => d_option | KNewtype _ => d_newtype_struct | KUnitEnum _ => d_enum
+  end.
+
+(* the class of a method, `forward_to_deserialize_any!` followed to deserialize_any *)
+Definition key_class (S : vde_source) (fr : bool) (m : vmethod) : option kclass :=
+  match lookup_body false fr (s_key S) m with
+  | Some KForwardAny => lookup_body false fr (s_key S) d_any
+  | o => o
+  end.
+
+(* a string visitor on the key: BorrowedCowStrDeserializer::deserialize_any — visit_borrowed_str for Cow::Borrowed, visit_string for Cow::Owned *)
+Definition key_str_meaning {A} (S : vde_source) (fr : bool) (m : vmethod) (c : cow) (visit_string visit_borrowed : bytes -> vres A) (key : bytes) : vres A :=
+  match key_class S fr m with
+  | Some KAnyCow => match s_cow_any S with CowAnyByKind => match c with CowBorrowed => visit_borrowed key | CowOwned => visit_string key end end
+  | Some _ => bad                                  (* visit_bool / visit_some / .. : not visits of a string visitor *)
+  | None => VPanic
+  end.
+
+(* `de.$using(visitor)` on the text deserializer over the key, for the numeric visitor of [k] *)
+Definition numeric_visit (k : kty) : pnum -> st -> tres (dval * st) :=
+  match k with KInt it => visit_int it | KF32 => visit_f32 | KF64 => visit_f64 | _ => fun _ _ => TPanic end.
+Definition key_delegate (u : keyusing) (k : kty) (E : env) : st -> tres (dval * st) :=
+  match u with
+  | UsingNumber => deserialize_number E (numeric_visit k)
+  | UsingF32 => deserialize_number_s E (numeric_visit k)
+  | UsingI128 => deserialize_i128 E
+  | UsingU128 => deserialize_u128 E
+  end.
+
+Definition cow_borrowed (c : cow) : bool := match c with CowBorrowed => true | CowOwned => false end.
+
+(* KSeed(k).deserialize(MapKeyDeserializer { key: Cow::c(key) }) *)
+Fixpoint key_meaning (S : vde_source) (cf : cfg) (c : cow) (k : kty) (key : bytes) {struct k} : vres dval :=
+  let fr := float_roundtrip cf in
+  match key_class S fr (kseed_method k) with
+  | None => VPanic
+  | Some KAnyCow =>
+    match k with
+    | KStr => key_str_meaning S fr d_string c (fun s => of_visit (visit_string s false st0)) (fun s => of_visit (visit_string s true st0)) key
+    | KChar => key_str_meaning S fr d_char c (fun s => of_visit (visit_char s false st0)) (fun s => of_visit (visit_char s true st0)) key
+    | _ => bad
+    end
+  | Some (KNumericKey u) => vkey_numeric cf (key_delegate u k) key
+  | Some KBoolText =>
+    if beq_bytes key lit_true_k then match k with KBool => VOk (DBool true) | _ => bad end
+    else if beq_bytes key lit_false_k then match k with KBool => VOk (DBool false) | _ => bad end
+    else verr MInvalidType
+  | Some KSome => match k with KOption k1 => vmap DSome (key_meaning S cf c k1 key) | _ => bad end
+  | Some KNewtypeSelf => match k with KNewtype k1 => vmap DNewtype (key_meaning S cf c k1 key) | _ => bad end
+  | Some KEnumIntoDeserializer =>
+    (* serde's CowStrDeserializer: visit_enum with unit variants only *)
+    match k with
+    | KUnitEnum names =>
+      let& (vname, _, _) := of_visit1 (visit_variant (map (fun n => (n, tt)) names) key false st0) in VOk (DVariant vname DUnit)
+    | _ => bad
+    end
+  | Some KForwardAny => VPanic
+  end.
+
+(* FieldSeed (serde_derive's field identifier): deserialize_identifier; visit_str looks the name up *)
+Definition field_key_meaning (S : vde_source) (cf : cfg) (fields : list (bytes * ty)) (c : cow) (key : bytes) : vres (option (nat * ty)) :=
+  key_str_meaning S (float_roundtrip cf) d_identifier c (fun s => VOk (index_of s fields)) (fun s => VOk (index_of s fields)) key.
